@@ -39,6 +39,8 @@ package orda
 //@ pred mapWF(m *mapSnapshot) = m.Map != nil && m.BaseDatatype != nil && (forall k string :: k in m.Map ==> tnode(m.Map[k]))
 //@ pred live(m *mapSnapshot, k string) = k in m.Map && m.Map[k].(*timedNode).V != nil
 //@ pred tsOf(t timedType) = t.(*timedNode).T
+// no node object is shared by two keys (put only ever links a node that is not in the map yet)
+//@ pred mapInj(m *mapSnapshot) = forall k1 string, k2 string :: k1 in m.Map && k2 in m.Map && k1 != k2 ==> m.Map[k1] != m.Map[k2]
 
 // $live is the ghost number of live (non-tombstone) keys; it is updated at the exit of each
 // mutator by the point-update rule of finite-set cardinality (only `key` may change its liveness,
@@ -69,9 +71,11 @@ package orda
 //@   ensures[other-keys]  forall k string :: k != key ==> (k in its.Map) == old(k in its.Map) && its.Map[k] == old(its.Map[k])
 //@   ensures[nodes-untouched] forall t *timedNode :: t.V == old(t.V) && t.T == old(t.T)
 //@   ensures[size==live]  mapSized(its)
+//@   ensures[size-delta]  its.Size == old(its.Size) + (live(its, key) ? 1 : 0) - (old(live(its, key)) ? 1 : 0)
+//@   ensures[nodes-not-shared] old(mapInj(its)) ==> mapInj(its)
 //@   ensures[result-new]  n == its.Map[key]
 //@   ensures[result-old]  o == (old(key in its.Map) ? (its.Map[key] == newOne ? old(its.Map[key]) : newOne) : nil)
-//@   modifies mapSnapshot.Size, map[string]timedType, mapSnapshot.$live
+//@   modifies mapSnapshot.Size @ its, map[string]timedType @ its.Map, mapSnapshot.$live @ its
 
 //@ func (*mapSnapshot).removeRemoteWithTimedType
 //@   mode math nooverflow Size counts entries of an in-memory map
@@ -85,9 +89,10 @@ package orda
 //@   ensures[lww-keep]    old(key in its.Map) && !tsLess(old(tsOf(its.Map[key])), ts) ==> its.Map[key].(*timedNode).V == old(its.Map[key].(*timedNode).V) && its.Map[key].(*timedNode).T == old(its.Map[key].(*timedNode).T)
 //@   ensures[other-nodes] forall t *timedNode :: t != old(its.Map[key]) ==> t.V == old(t.V) && t.T == old(t.T)
 //@   ensures[size==live]  mapSized(its)
+//@   ensures[size-delta]  its.Size == old(its.Size) + (live(its, key) ? 1 : 0) - (old(live(its, key)) ? 1 : 0)
 //@   ensures[no-target]   (result2 != nil) == !old(key in its.Map)
 //@   ensures[old-value]   result2 == nil && result0 != nil ==> result1 == old(its.Map[key].(*timedNode).V)
-//@   modifies mapSnapshot.Size, timedNode.V, timedNode.T, mapSnapshot.$live
+//@   modifies mapSnapshot.Size @ its, timedNode.V @ its.Map[key].(as *timedNode), timedNode.T @ its.Map[key].(as *timedNode), mapSnapshot.$live @ its
 
 //@ func (*mapSnapshot).removeLocalWithTimedType
 //@   mode math nooverflow Size counts entries of an in-memory map
@@ -102,7 +107,8 @@ package orda
 //@   ensures[error-changes-nothing] result2 != nil ==> (forall t *timedNode :: t.V == old(t.V) && t.T == old(t.T)) && its.Size == old(its.Size)
 //@   ensures[other-nodes] forall t *timedNode :: t != old(its.Map[key]) ==> t.V == old(t.V) && t.T == old(t.T)
 //@   ensures[size==live]  mapSized(its)
-//@   modifies mapSnapshot.Size, timedNode.V, timedNode.T, mapSnapshot.$live
+//@   ensures[size-delta]  its.Size == old(its.Size) + (live(its, key) ? 1 : 0) - (old(live(its, key)) ? 1 : 0)
+//@   modifies mapSnapshot.Size @ its, timedNode.V @ its.Map[key].(as *timedNode), timedNode.T @ its.Map[key].(as *timedNode), mapSnapshot.$live @ its
 
 //@ func (*mapSnapshot).get
 //@   mode math
